@@ -26,7 +26,7 @@ date = datetime.date
 
 POOL = {
     int: ['i1', 'i2'], D: ['d1', 'd2'], str: ['s1', 's2'], date: ['t1', 't2'], bool: ['b1', 'b2'],
-    relativedelta: ['iv'], set: ['st'], list: ['ls'], dict: ['mp'],
+    relativedelta: ['iv'], set: ['st'], list: ['ls'], dict: ['mp'], object: ['o1'],
 }
 COLTYPE = {c: t for t, cs in POOL.items() for c in cs}
 SCALARS = [int, D, str, date, bool]
@@ -37,10 +37,11 @@ def tname(t):
 
 
 class TE:
-    __slots__ = ('node', 'dtype', 'cols', 'locus', 'depth', 'kind')
+    __slots__ = ('node', 'dtype', 'cols', 'locus', 'depth', 'kind', 'ref')
 
-    def __init__(self, node, dtype, cols, locus, depth, kind='expr'):
+    def __init__(self, node, dtype, cols, locus, depth, kind='expr', ref=None):
         self.node = node
+        self.ref = ref          # the expression the REFERENCE evaluates, when it differs (explicit casts of untyped operands)
         self.dtype = dtype
         self.cols = frozenset(cols)
         self.locus = locus
@@ -242,6 +243,17 @@ def depth1(seed=0):
         out.append(build('coalesce', [column(c1), column(c2)], t, f'coalesce[{tname(t)}]'))
         out.append(build('coalesce', [column(c1), constants(t, seed)[-1]], t, f'coalesce[{tname(t)}]'))
         out.append(build('coalesce', [column(c1), column(c2), constants(t, seed)[0]], t, f'coalesce[{tname(t)}]'))
+    # untyped (object) operand against a typed operand: the object operand is implicitly cast to the other operand's
+    # type (int -> decimal); the reference evaluates the explicit cast
+    CAST = {int: 'decimal', D: 'decimal', str: 'str', date: 'date', bool: 'bool'}
+    o = ast.Column('o1')
+    for op in [ast.Add, ast.Sub, ast.Mul, ast.Div, ast.Mod] + CMP + [ast.Match]:
+        for t in (int, D, str, date):
+            c = ast.Column(POOL[t][0])
+            cast = ast.Function(CAST[t], [ast.Column('o1')])
+            rt = bool if (op in CMP or op is ast.Match) else None
+            out.append(TE(op(o, c), rt, ['o1', POOL[t][0]], f'{op.__name__}[object,{tname(t)}]', 1, ref=op(cast, c)))
+            out.append(TE(op(c, o), rt, ['o1', POOL[t][0]], f'{op.__name__}[{tname(t)},object]', 1, ref=op(c, cast)))
     # total scalar functions
     for name, its, rt in FUNCSIGS:
         loc = f'{name}({",".join(tname(t) for t in its)})'
@@ -268,7 +280,7 @@ def representative_producers(d1):
     out = []
     for te in d1:
         k = (te.dtype, te.locus)
-        if k in seen or te.dtype is None:
+        if k in seen or te.dtype is None or te.ref is not None:
             continue
         if all(False for _ in te.cols):    # constant-only expressions are folded: keep column-reading ones
             continue
@@ -283,7 +295,7 @@ def depth2(d1, seed=0, all_slots=False, max_cols=3, full_children=False):
     prods = by_type(representative_producers(d1))
     if full_children and not all_slots:
         # every depth-1 expression that reads at least one column is a child candidate
-        prods = by_type([te for te in d1 if te.cols and te.dtype is not None])
+        prods = by_type([te for te in d1 if te.cols and te.dtype is not None and te.ref is None])
     out = []
     sigs = []
     for op, its, impl in registry_overloads():
